@@ -95,7 +95,7 @@ class PointLocal(FragmentTask):
 
 
 def api_tasks(tier):
-    out = [PointLocal(2, 0), PointLocal(2, 1), PointMatch()]
+    out = [PointLocal(2, 0), PointLocal(2, 1), PointMatch(), PointRefusal(0, 1), PointRefusal(2, 0)]
     if tier == "thorough":
         out += [PointLocal(3, 0), PointLocal(3, 1), PointLocal(3, 2), PointLocal(1, 0)]
     return out
@@ -170,3 +170,37 @@ class PointMatch(FragmentTask):
             from pyvc.ops import as_ndarray
             a = as_ndarray(inner)
             ctx.oblige("post.the-single-inner-match-is-the-fine-box", zand(to_z3(a.shape[0]) == 1, to_z3(a.elem((0,))) == 0), "P")
+
+
+class PointRefusal(PointMatch):
+    """Same skeleton, a point OUTSIDE the domain (beyond one face by any positive amount, however small, in-range in the other
+    directions): the statements up to the choice of the exact-match level do not complete normally - the query is refused."""
+    last = staticmethod(_src("match_lv_exact = "))
+
+    def __init__(self, d, side):
+        self.d, self.side = d, side
+        self.name = f"LevelDataSelector.__call__.refuses-points-outside[axis={d},{'upper' if side else 'lower'} face]"
+
+    def setup(self, ex):
+        inp = PointMatch.setup(self, ex)
+        ctx = ex.ctx
+        # replace the point: keep the other coordinates anywhere inside the domain, move this one beyond the face
+        glo = [z3.Real(f"glo{d}") for d in range(3)]
+        dx0 = [z3.Real(f"dx{d}") for d in range(3)]
+        n0 = [16, 8, 8]
+        q = [z3.Real(f"q{d}") for d in range(3)]
+        eps = z3.Real("eps")
+        ctx.assume(eps > 0)
+        for d in range(3):
+            if d == self.d:
+                ctx.assume(q[d] == (glo[d] + n0[d] * dx0[d] + eps if self.side else glo[d] - eps))
+            else:
+                ctx.assume(z3.And(q[d] >= glo[d], q[d] <= glo[d] + n0[d] * dx0[d]))
+        inp["frame"]["point"] = Vec(q, "array")
+        return inp
+
+    def post(self, ex, inp, out):
+        ex.ctx.oblige("post.query-outside-the-domain-is-refused", out.kind == "exc", "P",
+                      note="the matching statements completed for a point outside the domain")
+
+
